@@ -20,7 +20,8 @@ package appmanifest
 //@   ensures @timestamp_attached_only_if_it_covers_this_signature ret0 == nil ==> verified
 
 //@ func setAssemblyIdentity
-//@   property C19
+//@   property C19 C11
+//@   requires @there_is_a_root_element root != nil
 //@   ghost tok string = ""
 //@   ghost tokOK bool = false
 //@   before call PublicKeyToken(k): assert @token_of_the_signing_certificate_key k == cert.Leaf.PublicKey
@@ -46,7 +47,7 @@ package appmanifest
 //@   before call x509tools.FormatPkixName(raw, style): assert @publisher_name_is_the_leaf_subject sameslice(raw, cert.Leaf.RawSubject)
 //@
 //@ func Sign
-//@   property C19
+//@   property C19 C11
 //@   ghost asiDone bool = false
 //@   ghost pubDone bool = false
 //@   before call setAssemblyIdentity(r, c): assert @identity_of_the_signing_certificate c == cert
@@ -56,7 +57,7 @@ package appmanifest
 //@   before call xmldsig.Sign(_, _, _, k, cs, _): assert @identity_fields_set_before_signing_with_the_same_certificate asiDone && pubDone
 
 //@ func Verify
-//@   property C02 C19
+//@   property C02 C19 C11
 //@   ghost prim *xmldsig.Signature = nil
 //@   ghost sec *xmldsig.Signature = nil
 //@   ghost verifies int = 0
